@@ -515,13 +515,14 @@ func (r *UnitRun) box(st *State, v Val, t types.Type) Val {
 func (r *UnitRun) boxFn(src, dst string) string {
 	d := r.prog.World.decls
 	fn := "box_" + sanitize(src) + "_" + sanitize(dst)
-	if _, ok := d.text[fn]; !ok {
-		d.declare(fn, fmt.Sprintf("(declare-fun %s (%s) %s)\n(declare-fun un%s (%s) %s)\n(declare-fun is%s (%s) Bool)\n(assert (forall ((x %s)) (! (and (is%s (%s x)) (= (un%s (%s x)) x)) :pattern ((%s x)))))",
-			fn, src, dst, fn, dst, src, fn, dst, src, fn, fn, fn, fn, fn))
-		if dst != "Data" {
-			d.declare(fn+"_nonnil", fmt.Sprintf("(assert (forall ((x %s)) (! (not (= (%s x) nil_%s)) :pattern ((%s x)))))", src, fn, dst, fn))
-		}
+	// world level: declarations only (a query's text must not depend on which units were processed before it)
+	d.declare(fn, fmt.Sprintf("(declare-fun %s (%s) %s)\n(declare-fun un%s (%s) %s)\n(declare-fun is%s (%s) Bool)", fn, src, dst, fn, dst, src, fn, dst))
+	// unit level, on demand: the axioms
+	ax := fmt.Sprintf("(assert (forall ((x %s)) (! (and (is%s (%s x)) (= (un%s (%s x)) x)) :pattern ((%s x)))))", src, fn, fn, fn, fn, fn)
+	if dst != "Data" {
+		ax += fmt.Sprintf("\n(assert (forall ((x %s)) (! (not (= (%s x) nil_%s)) :pattern ((%s x)))))", src, fn, dst, fn)
 	}
+	r.needNamed("boxax:"+fn, ax)
 	return fn
 }
 
@@ -569,7 +570,7 @@ func (r *UnitRun) evalTypeAssert(st *State, e *ast.TypeAssertExpr, commaOk bool)
 func isInterfaceSort(s string) bool { return len(s) > 2 && s[:2] == "I_" }
 
 func (r *UnitRun) needIsCPU() {
-	d := r.prog.World.decls
-	d.declare("isCPU", "(declare-fun isCPU (T) Bool)\n(assert (forall ((t T)) (! (=> (not (= t nilT)) (isCPU t)) :pattern ((isCPU t)))))")
+	r.prog.World.decls.declare("isCPU", "(declare-fun isCPU (T) Bool)")
+	r.needNamed("isCPUax", "(assert (forall ((t T)) (! (=> (not (= t nilT)) (isCPU t)) :pattern ((isCPU t)))))")
 	r.assumption("every non-nil tensor.Tensor is a *CPUTensor (foreign implementations of the interface are outside every contract)")
 }
